@@ -66,7 +66,12 @@ class Report:
         os.makedirs(f'{V}/evidence', exist_ok=True)
         new, known = [], []
         for v in self.violations:
-            key = (self.pid, v['fingerprint'])
+            # a scenario shared between two properties can run into the other property's listed finding (fingerprints name their
+            # property): it is then that property's known finding, not a violation of this one
+            fp = v['fingerprint']
+            owner = fp[:3] if re.match(r'C\d\d:', fp) else self.pid
+            key = (owner, fp)
+            v['owner'] = owner
             h = hashlib.sha1(v['fingerprint'].encode()).hexdigest()[:12]
             path = f'{V}/replays/{self.pid}/{h}.json'
             with open(path, 'w') as f:
@@ -88,7 +93,7 @@ class Report:
         with open(f'{V}/evidence/{self.pid}.json', 'w') as f:
             json.dump(ev, f, indent=1)
         for v in known:
-            print(f"KNOWN-FINDING: property={self.pid} {v['fingerprint']} {v['what']}")
+            print(f"KNOWN-FINDING: property={v['owner']} {v['fingerprint']} {v['what']}")
         for v in new:
             print(f"VIOLATION property={self.pid} replay={v['replay_path']}")
             print(f"  {v['fingerprint']}: {v['what']}")
